@@ -231,9 +231,21 @@ class Oracles:
             if "R" in states[tid]:
                 if not tm.started:
                     w.label("cancel:before-first-step")
-                tm.request_cancel()
+                self.request_cancel(tm)
                 if tm.req is not None:
                     tm.req.single_cancels += 1
+
+    def request_cancel(self, tm: TaskM) -> None:
+        tm.request_cancel()
+        if tm.in_aflush:
+            # the task is suspended in `await pool.flush()`: cancelling it makes asyncio.gather cancel what flush awaits
+            pm = tm.pm
+            pm.fault_seen = True
+            self.w.label("cancel:of-a-worker-inside-flush")
+            for o in pm.tasks.values():
+                if o is not tm and not o.finished() and not o.forgotten and (o.in_cb or o.body_done or not o.started):
+                    o.stray_ok = True
+                    o.disturbed = True
 
     # ================================================================== group / global cancellation (C07)
     def model_cancel_request(self, pm: PoolM, rm: ReqM) -> None:
@@ -256,7 +268,7 @@ class Oracles:
             if "R" in st:
                 if not tm.started:
                     w.label("group-cancel:task-before-first-step")
-                tm.request_cancel()
+                self.request_cancel(tm)
 
     def op_cancel_group(self, op: dict, ctx: dict) -> None:
         w, X = self.w, self.L.exceptions
@@ -375,7 +387,7 @@ class Oracles:
         for tid in got:
             tm = pm.tasks.get(tid)
             if tm is not None and "R" in self.model_states(pm, tid):
-                tm.request_cancel()
+                self.request_cancel(tm)
             elif tm is None or not certain:
                 pass
             else:
@@ -465,7 +477,8 @@ class Oracles:
                 may.append(tm)
         return must, may
 
-    async def actor_flush(self, op: dict) -> None:
+    async def actor_flush(self, op: dict, inline: bool = False) -> None:
+        """`inline`: awaited by a pool worker itself; a cancellation of that worker is passed on after the bookkeeping."""
         w, X = self.w, self.L.exceptions
         pm = self.pm_of(op)  # type: ignore[attr-defined]
         re_ = bool(op.get("re"))
@@ -478,7 +491,8 @@ class Oracles:
         failed_before = [t for t in must if t.finished() and not t.atask.cancelled() and t.atask.exception() is not None]
         epoch = self.forget_epoch
         me = asyncio.current_task()
-        self.flush_actors.append(me)
+        if not inline:
+            self.flush_actors.append(me)      # candidates for `abandon` (a pool worker awaiting flush is cancelled through the pool)
         self.flushes_active += 1
         if self.flushes_active >= 2:
             w.label("flush:overlapping-flushes")
@@ -491,6 +505,16 @@ class Oracles:
             if w.teardown:
                 raise
             raised = asyncio.CancelledError()
+            if inline:
+                # the awaiting worker was cancelled: what flush did or did not forget is open; the cancellation goes on
+                self.flushes_active -= 1
+                self.forget_epoch += 1
+                for tm in pm.tasks.values():
+                    if not tm.forgotten and tm.finished():
+                        tm.may_forget = True
+                self.resolve_forgotten(pm)
+                self.flushes_active += 1     # undone by the finally below
+                raise
         except CaseTimeout:
             raise
         except BaseException as e:
@@ -948,7 +972,9 @@ class Oracles:
                     if live == pm.size:
                         w.label("idle:pool-full")
             for tm in pm.tasks.values():
-                if tm.live and tm.pending:
+                if tm.live and tm.pending and not tm.in_aflush:
+                    # (a task suspended in `await pool.flush()` gets its CancelledError only when what flush gathers has finished
+                    #  being cancelled - asyncio.gather semantics; it still is the next thing it observes)
                     w.fail(self.stray_props() | {"C06"}, "cancel/not-delivered-by-idle", f"{pm.name}#{tm.tid}")
                 if not tm.started and not tm.forgotten and tm.atask is not None and not tm.atask.done() and tm.ccb_n == 0 and tm.ecb_n == 0:
                     w.fail({"C02"}, "idle/task-never-started-still-pending", f"{pm.name}#{tm.tid}")
@@ -1143,7 +1169,7 @@ class Oracles:
                 w.fail({"C01"}, "size/task-started-in-size-0-pool", rid)
             return      # a pool of size 0 starts nothing: completeness is not owed
         if pm.size_dirty:
-            return
+            return      # reassigned while slots were in use (open finding D4): waiters may legitimately be stuck for good
         if pm.closing:
             C = C | {"C08"}
         if pm.fault_seen:
